@@ -91,7 +91,7 @@ func limitsReleasingScenarios(tier string) []clustermc.Scenario {
 	}
 	lay := []nodeLayout{{"1n-4gpu", []world.NodeOpt{{Name: "n1", CPU: "16", Mem: "32Gi", GPUs: 4, GPUMemMiB: 40000}}},
 		{"1n-3gpu", []world.NodeOpt{{Name: "n1", CPU: "16", Mem: "32Gi", GPUs: 3, GPUMemMiB: 40000}}}}
-	cfgs := []schedrun.Config{{}, {Placement: "spread", NoConsolidation: true}}
+	cfgs := []schedrun.Config{{}, {Placement: "spread", NoConsolidation: true, ConsolidatingReclaim: true}}
 	var out []clustermc.Scenario
 	for _, sc := range wlScenarios(tier, menu, lay, limitQueues(), cfgs, 3, 4) {
 		if strings.Contains(sc.Name, "run1+term1") {
@@ -143,7 +143,7 @@ func C08() *clustermc.Family {
 			if tier == "thorough" {
 				lay = append(lay, nodeLayout{"2n-2+2gpu", []world.NodeOpt{{Name: "n1", CPU: "16", Mem: "32Gi", GPUs: 2, GPUMemMiB: 40000}, {Name: "n2", CPU: "16", Mem: "32Gi", GPUs: 2, GPUMemMiB: 80000}}})
 			}
-			cfgs := []schedrun.Config{{}, {Placement: "spread", NoConsolidation: true}}
+			cfgs := []schedrun.Config{{}, {Placement: "spread", NoConsolidation: true, ConsolidatingReclaim: true}}
 			return append(append(wlScenarios(tier, limitsMenu(), lay, limitQueues(), cfgs, 3, 4), limitsReleasingScenarios(tier)...), limitsGpuMemoryScenarios(tier)...)
 		},
 		Depth:   func(tier string) int { return 3 },
